@@ -757,3 +757,30 @@ Proof.
     eapply (IH s1); [eapply inv1_step; eauto|eapply inv2_step; eauto| |eapply invD_step; eauto|exact H].
     eapply (invR_step fixed true); eauto. apply done_not_late. exact D.
 Qed.
+
+(* ---- the stale cancel: "no timeout before the deadline" in full is false of the faithful model.
+   The expire loop decides for operation 1 (due), takes its cancel function and drops the lock
+   ([PCallCancel] pending); operation 1 completes by another cause, its callback has run, and
+   operation 2 (deadline 1000) is started on the same aio; the pending cancel call now reaches
+   operation 2 and completes it with A_TIMEDOUT although no clock reading ever exceeded 10.
+   [g_early] is decided when the loop decides, so it stays false: that ghost - and the theorem
+   aio_timeout_not_early_holds about it - covers the decision, not the delivery. *)
+Definition stale_cancel_run : list alabel :=
+  [LStart false (Some 5%N) false false; LExpire 10%N; LRun 0; LProvFinish 7%N; LRun 1; LRun 1; LRunCb; LCbDone;
+   LStart false (Some 1000%N) false false; LRun 0; LRun 0; LRun 0; LRunCb].
+
+Lemma stale_cancel_delivers_early : forall fixed fdone, exists s1 s2,
+  arun fixed fdone aio_init (firstn 9 stale_cancel_run) = Some s1 /\
+  a_expire s1 = Some 1000%N /\ p_owns s1 = true /\ g_subs s1 = 2 /\ g_cbs s1 = 1 /\
+  arun fixed fdone s1 (skipn 9 stale_cancel_run) = Some s2 /\
+  g_cbs s2 = 2 /\ a_result s2 = A_TIMEDOUT /\ g_early s2 = false /\ g_bad_result s2 = false.
+Proof.
+  intros fixed fdone.
+  destruct (arun fixed fdone aio_init (firstn 9 stale_cancel_run)) as [s1|] eqn:E1;
+    [|destruct fixed, fdone; vm_compute in E1; discriminate].
+  destruct (arun fixed fdone s1 (skipn 9 stale_cancel_run)) as [s2|] eqn:E2;
+    [|destruct fixed, fdone; vm_compute in E1; inversion E1; subst; vm_compute in E2; discriminate].
+  exists s1, s2.
+  destruct fixed, fdone; vm_compute in E1; inversion E1; subst; vm_compute in E2; inversion E2; subst;
+    vm_compute; repeat split; reflexivity.
+Qed.
